@@ -253,3 +253,104 @@ def gen_long_history(rng):
     for o in ops[-9:]:
         o["snap"] = True        # dense snapshots over the tail, so the monitors can be evaluated on it
     return {"cfg": cfg, "ops": ops, "snap_every": 500}
+
+
+# ---------------------------------------------------------------------------
+# scenario fragments: multi-step situations a uniform random walk meets too rarely.  Each is a short
+# history with randomly chosen parameters; every queue-family check runs them before its random histories.
+
+def _cfg0(**kw):
+    c = {"max_depth": 0, "drop_oldest": False, "ret_age": 0, "prune_iv": 0, "deliv_age": 0, "dlq_age": 0,
+         "dlq_depth": 0, "press_items": 0}
+    c.update(kw)
+    return c
+
+
+def _enq(i, route="r0", target="t0", body=1, recv=None, nxt=None):
+    return {"id": i, "route": route, "target": target, "recv": recv, "next": nxt, "body": body, "hdr": 0, "trace": 0}
+
+
+def gen_scenarios(rng):
+    hs = []
+    # S1: several leases taken by ONE dequeue (same deadline), one of them extended, the others left to expire;
+    #     dequeues before / at / after the original deadline and around the extended one
+    for _ in range(3):
+        k = rng.choice([2, 3, 4])
+        T = rng.choice([5 * MS, 10 * MS, SEC, 30 * SEC])
+        D = rng.choice([MS, 10 * MS, SEC, 5 * SEC])
+        now = BASE + rng.randrange(1000) * SEC
+        ops = []
+        for i in range(k):
+            now += rng.choice([0, 1, MS])
+            ops.append({"op": "enqueue", "now": now, "enq": [_enq("s%d" % i, body=10 + i)]})
+        now += 1
+        ops.append({"op": "dequeue", "now": now, "route": "", "target": "", "batch": k, "ttl": T})
+        d0, t0 = len(ops) - 1, now
+        j = rng.randrange(k)
+        now += rng.choice([0, 1, T // 2])
+        ops.append({"op": "lease", "now": now, "kind": "extend", "dur": D, "reason": "", "lease": {"ref": [d0, j]}})
+        if k > 2 and rng.random() < 0.5:
+            ops.append({"op": "lease", "now": now, "kind": rng.choice(["ack", "nack", "dead"]), "dur": 0, "reason": "boom",
+                        "lease": {"ref": [d0, (j + 1) % k]}})
+        for at in (t0 + T - 1, t0 + T, t0 + T + rng.choice([0, 1, D // 2]), t0 + T + D - 1, t0 + T + D, t0 + T + D + 12 * MS):
+            if at >= now:
+                now = at
+                ops.append({"op": "dequeue", "now": now, "route": "", "target": "", "batch": rng.choice([1, k, 100]), "ttl": 30 * SEC})
+        ops.append({"op": "lease", "now": now, "kind": "extend", "dur": SEC, "reason": "", "lease": {"ref": [d0, j]}})
+        ops.append({"op": "stats", "now": now})
+        hs.append({"cfg": _cfg0(), "ops": ops, "snap_every": 1})
+    # S2: the store is closed and opened again (a process restart) while leases are live
+    for _ in range(2):
+        now = BASE + rng.randrange(1000) * SEC
+        T = rng.choice([30 * SEC, 3600 * SEC])
+        ops = [{"op": "enqueue", "now": now, "enq": [_enq("p%d" % i, body=20 + i)]} for i in range(3)]
+        now += MS
+        ops.append({"op": "dequeue", "now": now, "route": "", "target": "", "batch": 2, "ttl": T})
+        d0 = len(ops) - 1
+        now += rng.choice([MS, SEC])
+        ops.append({"op": "reopen", "now": now})
+        now += rng.choice([0, MS, 11 * MS])
+        ops.append({"op": "dequeue", "now": now, "route": "", "target": "", "batch": 5, "ttl": T})
+        ops.append({"op": "lease", "now": now, "kind": "extend", "dur": SEC, "reason": "", "lease": {"ref": [d0, 0]}})
+        ops.append({"op": "lease", "now": now, "kind": rng.choice(["ack", "nack"]), "dur": 0, "reason": "", "lease": {"ref": [d0, 1]}})
+        now += T + 2 * SEC
+        ops.append({"op": "dequeue", "now": now, "route": "", "target": "", "batch": 5, "ttl": SEC})
+        ops.append({"op": "stats", "now": now})
+        hs.append({"cfg": _cfg0(), "ops": ops, "snap_every": 1})
+    # S3: nack with a delay, dequeues just before / at / after the scheduled instant
+    for _ in range(2):
+        now = BASE + rng.randrange(1000) * SEC
+        delay = rng.choice([MS, SEC, 5 * SEC])
+        ops = [{"op": "enqueue", "now": now, "enq": [_enq("n0", body=31)]}, {"op": "enqueue", "now": now, "enq": [_enq("n1", body=32)]}]
+        now += 1
+        ops.append({"op": "dequeue", "now": now, "route": "", "target": "", "batch": 2, "ttl": 30 * SEC})
+        d0 = len(ops) - 1
+        now += MS
+        ops.append({"op": "lease", "now": now, "kind": "nack", "dur": delay, "reason": "", "lease": {"ref": [d0, 0]}})
+        t0 = now
+        for at in (t0 + delay - 1, t0 + delay, t0 + delay + 11 * MS):
+            now = at
+            ops.append({"op": "dequeue", "now": now, "route": "", "target": "", "batch": 5, "ttl": SEC})
+        hs.append({"cfg": _cfg0(), "ops": ops, "snap_every": 1})
+    # S4: retention ages count from the right instant (delivered: from the ack; queued / dead: from received_at)
+    for _ in range(3):
+        D = rng.choice([SEC, 10 * SEC])
+        iv = rng.choice([1, MS])
+        kind = rng.choice(["delivered", "dead", "queued"])
+        cfg = _cfg0(prune_iv=iv, deliv_age=D if kind == "delivered" else 0, dlq_age=D if kind == "dead" else 0,
+                    ret_age=D if kind == "queued" else 0)
+        now = BASE + rng.randrange(1000) * SEC
+        t0 = now
+        ops = [{"op": "enqueue", "now": now, "enq": [_enq("a0", body=41)]}, {"op": "enqueue", "now": now, "enq": [_enq("a1", body=42)]}]
+        if kind != "queued":
+            now = t0 + (8 * D) // 10
+            ops.append({"op": "dequeue", "now": now, "route": "", "target": "", "batch": 1, "ttl": 30 * SEC})
+            ops.append({"op": "lease", "now": now, "kind": "ack" if kind == "delivered" else "dead", "dur": 0, "reason": "boom",
+                        "lease": {"ref": [len(ops) - 1, 0]}})
+        for at in (t0 + D - 1, t0 + D, t0 + (11 * D) // 10, t0 + (8 * D) // 10 + D - 1, t0 + (8 * D) // 10 + D, t0 + 2 * D + MS):
+            if at >= now:
+                now = at
+                ops.append({"op": rng.choice(["stats", "list"]), "now": now,
+                            "filt": {"route": "", "target": "", "state": "", "limit": 0, "before": None, "preview": False, "order": ""}})
+        hs.append({"cfg": cfg, "ops": ops, "snap_every": 1})
+    return hs
